@@ -34,7 +34,8 @@ type c06Resp struct {
 	FailAt   int   // >= 0: Read fails after this many bytes
 	UnknownL bool  // ContentLength -1
 	Location string
-	HeadLen  int // > 0 (HEAD requests only): the response announces this Content-Length but, as for every HEAD, carries no body
+	HeadLen  int  // > 0 (HEAD requests only): the response announces this Content-Length but, as for every HEAD, carries no body
+	CloseErr bool `json:",omitempty"` // Close reports an error (after the fact: the exchange is complete, the result is not affected)
 }
 
 type c06Exchange struct {
@@ -118,6 +119,9 @@ func (b *c06Body) Close() error {
 	b.mu.Lock()
 	defer b.mu.Unlock()
 	b.closes++
+	if b.r.CloseErr {
+		return errors.New("fake body close error")
+	}
 	return nil
 }
 
@@ -445,6 +449,7 @@ func c06GenResp(t *rapid.T, l string, redirect bool) c06Resp {
 		r.Chunks = rapid.SliceOfN(rapid.SampledFrom([]int{1, 2, 3, 7, 100, 511, 512, 4096, 32768}), 1, 4).Draw(t, l+".chunks")
 	}
 	r.EOFWith = rapid.Bool().Draw(t, l+".eofwith")
+	r.CloseErr = rapid.IntRange(0, 4).Draw(t, l+".closeerr") == 0
 	r.UnknownL = rapid.Bool().Draw(t, l+".unknownlen")
 	return r
 }
